@@ -139,11 +139,22 @@ def err_exit_blocks(f):
     """blocks on which the function's return value is made an error: `?` residual conversion or an explicit
     `_0 = Err(..)` aggregate"""
     out = set()
+    # the return place, and the return places of inlined helpers whose result *is* the function's result (tail position)
+    rets = {0}
+    changed = True
+    while changed:
+        changed = False
+        for bb, s in f.stmts():
+            if s.get("inl") == "ret" and len(s["d"]) == 1 and s["d"][0] in rets and s["o"] and "p" in s["o"][0] and len(s["o"][0]["p"]) == 1:
+                l = s["o"][0]["p"][0]
+                if l not in rets:
+                    rets.add(l)
+                    changed = True
     for c in f.calls():
-        if c.name == "from_residual" and c.dst and c.dst[0] == 0:
+        if c.name == "from_residual" and c.dst and len(c.dst) == 1 and c.dst[0] in rets:
             out.add(c.bb)
     for bb, s in f.stmts():
-        if s.get("k") == "agg" and s["d"] == [0] and last_seg(s["adt"]) == "Result" and s.get("variant") == "Err":
+        if s.get("k") == "agg" and len(s["d"]) == 1 and s["d"][0] in rets and last_seg(s["adt"]) == "Result" and s.get("variant") == "Err":
             out.add(bb)
     return out
 
